@@ -17,6 +17,7 @@ import M4riProofs.Strassen
 import M4riProofs.GenTie
 import M4riProofs.GenTieTab
 import M4riProofs.GenTieDuff
+import M4riProofs.GenTieStrassen
 namespace M4ri.Props.C01
 open M4ri M4ri.BMat
 
@@ -119,5 +120,14 @@ theorem routes_agree (fuel cutoff k auto ntables thin thin' : Nat) (junk : Nat â
 #check @M4ri.GenTieDuff.mzdCombineEvenInPlace_eq
 #check @M4ri.GenTieDuff.mzdCombineEven_eq
 #check @M4ri.GenTieDuff.duff_eq
+
+
+/-! ### tie to the C text: the COMPLETE C function `_mzd_mul_even` (early return, base case incl. the windowed-operand copies, split, 12 quadrant
+    windows, 2 temporaries, the 22 steps of the Bodrato sequence, the three remainder strips) is generated by vlib/ctrans.py on every
+    check; with its callees instantiated by the model it equals `mulEven (fuel + 1)`, hence the product (GenTieStrassen.lean) -/
+#check @M4ri.GenTieStrassen.strassenMulEven_step
+#check @M4ri.GenTieStrassen.strassenMulEven_step_mul
+#check @M4ri.GenTieStrassen.strassenMulEven_base
+#check @M4ri.GenTieStrassen.strassenMulEven_split
 
 end M4ri.Props.C01
